@@ -234,7 +234,8 @@ def _cp437(pos, b):
         meta['expect_print'] = f'{ch} {ch} '
     elif pos == 'datau':
         src = f'data p{ch}q, 2\nread a$\nprint a$;'
-        meta['expect_print'] = f'p{ch}q'
+        # a comma ends the item; every other byte is part of it
+        meta['expect_print'] = 'p' if ch == ',' else f'p{ch}q'
         meta['expect_print_if_data'] = True
     else:
         src = f'const k$ = "{ch}k"\nprint k$; "{ch}k";'
@@ -300,12 +301,18 @@ def data_item(k):
 
 
 def limits_of(**kw):
+    """input-side size classes (features for the ledger); each names the
+    narrowest limit of the module format the program exceeds"""
     out = []
-    if kw.get('n_literals', 0) > 32768:
+    if kw.get('n_literals', 0) > 65536:
+        out.append('literals>65536')
+    elif kw.get('n_literals', 0) > 32768:
         out.append('literal-index>32767')
     if kw.get('literal_len', 0) > 65535:
         out.append('literal-length>65535')
-    if kw.get('part_items', 0) > 32767:
+    if kw.get('part_items', 0) > 65535:
+        out.append('data-part-items>65535')
+    elif kw.get('part_items', 0) > 32767:
         out.append('data-part-items>32767')
     if kw.get('item_len', 0) > 32767:
         out.append('data-item-length>32767')
@@ -343,12 +350,12 @@ def _sizes(kind, n, *rest):
         if n:
             lines.append('restore p%d' % (n - 1))
         src = '\n'.join(lines) + '\n'
-        meta['limits'] = limits_of(parts=n)
+        meta['limits'] = limits_of(parts=n) + (['restore-part-index>32767'] if n - 1 > 32767 else [])
     elif kind == 'nlabels':
         lines = []
         if n:
-            lines = ['on error goto l%d' % (n - 1), 'if x% then goto l%d' % (n // 2),
-                     'if x% then gosub l%d' % (n - 1), 'if x% then goto l0', 'end']
+            lines = ['on error goto l%d' % (n - 1), 'if x%% then goto l%d' % (n // 2),
+                     'if x%% then gosub l%d' % (n - 1), 'if x% then goto l0', 'end']
         lines += ['l%d: beep' % k for k in range(n)]
         lines.append('return')
         src = '\n'.join(lines) + '\n'
@@ -392,9 +399,19 @@ def _sizes(kind, n, *rest):
     elif kind == 'nlocals':
         src = '\n'.join(': '.join('v%d%% = %d' % (i, i % 3) for i in range(a, min(n, a + 32)))
                         for a in range(0, n, 32)) + '\n'
+    elif kind == 'codesize':
+        # n identical lines (one parse) push the routine, the labels and the
+        # jump targets behind them above address 65535
+        lines = ['on error goto far', 'if x% then goto far', 'gosub far', 'call s']
+        lines += ['x% = x% + 1'] * n
+        lines += ['end', 'far: return', 'sub s', 'y% = 1', 'if y% then exit sub', 'end sub']
+        src = '\n'.join(lines) + '\n'
     else:
         raise ValueError(kind)
     return src, meta
+
+
+BIG_N = [32767, 32768, 65535, 65536]
 
 
 def sizes_specs(tier):
@@ -410,20 +427,20 @@ def sizes_specs(tier):
     for n in (255, 256, 257, 32767, 32768, 65534, 65535, 65536):
         for w in ('main', 'sub', 'global'):
             out.append(['sizes', 'framecells', n, w])
+    # the 16-bit boundaries that compile in well under a second
+    for n in BIG_N:
+        out += [['sizes', 'ndata', n, 'one'], ['sizes', 'ndata', n, 'multi'], ['sizes', 'litlen', n],
+                ['sizes', 'itemlen', n, 'quoted'], ['sizes', 'itemlen', n, 'bare']]
     return out
 
 
-BIG_N = [32767, 32768, 65535, 65536]
-
-
 def big_specs():
-    """thorough only; each is evaluated one configuration per work item"""
-    out = []
-    for n in BIG_N:
-        out += [['sizes', 'nlits', n], ['sizes', 'ndata', n, 'one'], ['sizes', 'ndata', n, 'multi'],
-                ['sizes', 'litlen', n], ['sizes', 'itemlen', n, 'quoted'], ['sizes', 'itemlen', n, 'bare'],
-                ['sizes', 'nlabels', n], ['sizes', 'nparts', n]]
-    out += [['sizes', 'nlits', 32769], ['sizes', 'nroutines', 4096], ['sizes', 'nlabels', 4096],
+    """thorough only; each is evaluated one configuration per work item.
+    Programs of 32768+ *distinct* lines (labels, DATA parts) are cut: every
+    distinct line costs a 15-50 ms parse (see docs/notes/C09.md); the reader
+    side of those boundaries is in the synth family."""
+    out = [['sizes', 'nlits', n] for n in (32767, 32768, 32769)]
+    out += [['sizes', 'codesize', 9000], ['sizes', 'nroutines', 4096], ['sizes', 'nlabels', 4096],
             ['sizes', 'nparts', 4096], ['sizes', 'nparams', 255], ['sizes', 'nparams', 256],
             ['sizes', 'nlocals', 4096]]
     return out
@@ -437,6 +454,69 @@ G_STATEMENT_CAP = 4096
 def many_statements(spec):
     return spec[0] == 'sizes' and spec[1] in ('nlabels', 'nparts', 'nroutines', 'nlocals') \
         and spec[2] > G_STATEMENT_CAP
+
+
+# ---------------------------------------------------------------------------
+# synth family: a small compiled module whose literal / DATA / globals
+# sections are rewritten (qv.c09_model.patch_module) to the boundary sizes
+# that take the compiler minutes to produce.  meta['patch'] = keyword
+# arguments of patch_module.
+
+SYNTH_N = [0, 1, 255, 256, 257, 32767, 32768, 32769, 65535, 65536]
+
+
+def synth_lit(k):
+    return 'L%d' % k
+
+
+def synth_specs():
+    out = []
+    for n in SYNTH_N:
+        if n == 0:
+            continue
+        idxs = sorted(set([0, n - 1] + [b for b in (255, 256, 32767, 32768, 32769, 65534) if b < n]))
+        out += [['synth', 'litidx', n, i] for i in idxs]
+    out += [['synth', 'litlen', n] for n in (0, 1, 255, 256, 32767, 32768, 65535)]
+    out += [['synth', 'partitems', n] for n in (0, 1, 255, 256, 32767, 32768, 65535)]
+    out += [['synth', 'nparts', n] for n in (0, 1, 255, 256, 32767, 32768, 65535)]
+    out += [['synth', 'itemlen', n] for n in (0, 1, 255, 256, 32766, 32767)]
+    out += [['synth', 'globals', n] for n in (0, 1, 65535, 65536, 2 ** 31 - 1, 2 ** 31, 2 ** 32 - 1)]
+    return out
+
+
+def _synth(kind, n, *rest):
+    meta = {}
+    if kind == 'litidx':
+        idx = rest[0]
+        src = 'print "L0";\n'
+        meta['patch'] = {'literals': [synth_lit(k) for k in range(n)], 'push_index': idx}
+        meta['expect_print'] = synth_lit(idx)
+        meta['limits'] = ['literal-index>32767'] if idx > 32767 else []
+    elif kind == 'litlen':
+        txt = ('abcdefghij' * (n // 10 + 1))[:n]
+        src = 'print "L0";\n'
+        meta['patch'] = {'literals': [txt], 'push_index': 0}
+        meta['expect_print'] = txt
+    elif kind in ('partitems', 'nparts', 'itemlen'):
+        src = 'data x\nread a$\nprint a$;\n'
+        if kind == 'partitems':
+            parts = [[(None if k % 3 == 1 else 'i%d' % k if k % 3 == 0 else '') for k in range(n)]]
+        elif kind == 'nparts':
+            parts = [['p%d' % k] for k in range(n)]
+        else:
+            parts = [[('abcdefghij' * (n // 10 + 1))[:n], None, 'z']]
+        meta['patch'] = {'data': parts}
+        flat = [x for p in parts for x in p]
+        meta['data_items'] = flat
+        if flat:
+            meta['expect_print'] = flat[0] or ''
+    elif kind == 'globals':
+        src = 'print "L0";\n'
+        meta['patch'] = {'n_global_cells': n}
+        meta['n_global_cells'] = n
+    else:
+        raise ValueError(kind)
+    return src, meta
 
 
 # ---------------------------------------------------------------------------
@@ -464,4 +544,6 @@ def build(spec):
         return _datalayout(spec[1], spec[2], spec[3])
     if fam == 'sizes':
         return _sizes(spec[1], spec[2], *spec[3:])
+    if fam == 'synth':
+        return _synth(spec[1], spec[2], *spec[3:])
     raise ValueError(spec)
